@@ -256,6 +256,34 @@ fn run(ctx: &RunCtx) -> Report {
     for (k, v) in kinds {
         report.probe(&format!("injected_{k}"), v);
     }
+    // 1 run in 3: a well-formed multi-step history against the server-mode victim - one sender obtains
+    // a token and announces N peers (distinct requester ids) for one info hash, reading the list back
+    // after every announce; N sits around the sizes at which the store switches behaviour (20)
+    if rng.chance(1, 3) {
+        let storm_src = SocketAddrV4::new(priv_ip(4100), 4100);
+        let (_, slog) = logging_raw(&sim, storm_src);
+        let ih = rng.id();
+        let n = if rng.chance(2, 3) { *rng.pick(&[18usize, 19, 20, 21, 22]) } else { rng.usize(1, 45) };
+        let t1 = t_start + rng.range(0, span / MS / 2 + 1) * MS;
+        let srv = sim.node_addr(server);
+        let my_id = rng.id();
+        sim.at(t1, move |sim| sim.raw_send(storm_src, srv, krpc::query(&krpc::tid_bytes(9000), "get_peers", krpc::get_peers_args(&my_id, &ih), &MsgOpts::default())));
+        let ids: Vec<krpc::Id> = (0..n).map(|_| rng.id()).collect();
+        for (j, rid) in ids.into_iter().enumerate() {
+            let slog = slog.clone();
+            let at = t1 + 500 * MS + j as u64 * 30 * MS;
+            sim.at(at, move |sim| {
+                let token = slog.borrow().iter().filter_map(|(_, _, b)| Krpc::parse(b)).filter_map(|k| k.token().map(|t| t.to_vec())).next_back();
+                if let Some(token) = token {
+                    sim.raw_send(storm_src, srv, krpc::query(&krpc::tid_bytes(9100 + j as u32), "announce_peer", krpc::announce_peer_args(&rid, &ih, 1000 + j as u16, None, &token), &MsgOpts::default()));
+                    sim.raw_send(storm_src, srv, krpc::query(&krpc::tid_bytes(9500 + j as u32), "get_peers", krpc::get_peers_args(&rid, &ih), &MsgOpts::default()));
+                }
+            });
+        }
+        plan.push(format!("announce storm: {n} peers for one info hash from {storm_src} starting t={:.3}s", t1 as f64 / SEC as f64));
+        report.probe("announce_storms", 1);
+        report.probe("announce_storm_peers", n as u64);
+    }
     sim.run_until(t_start + span + 2 * SEC);
     let ids: Vec<OpId> = ops.borrow().iter().map(|o| o.1).collect();
     let in_flight_done = sim.run_ops(&ids, sim.now() + 60 * SEC);
